@@ -194,6 +194,12 @@ def shape_relations(rng, tier):
                 arr = keep.copy()
                 for i, v in enumerate(keep):
                     ev.append(rel("C15:scalar=array", "%s %s[%d]" % (name, f, i), float(np.max(np.abs(np.ravel(out[i]) - np.ravel(g(float(v)))))), 0.0, "eq", atol=1e-14))
+                # array layouts whose entries are not ordered: peak in the middle, equal ends, clipped ends, constant, descending
+                for lay in ([2.0, 4.0, 2.0], [0.5, 2.0, 4.0, 0.8], [1.0, 3.0, 1.0], [2.5, 2.5, 2.5], [6.0, 3.0, 1.5, 1.0], [1.2, 5.0, 3.0, 1.2, 7.0, 1.2]):
+                    la = np.array(lay)
+                    lo = np.asarray(g(la), dtype=float)
+                    worst = max(float(np.max(np.abs(np.ravel(lo[i]) - np.ravel(g(float(v)))))) for i, v in enumerate(lay))
+                    ev.append(rel("C15:scalar=array", "%s %s%s" % (name, f, lay), worst, 0.0, "eq", atol=1e-14))
                 ev.append(rel("C15:below-1-treated-as-1", "%s %s" % (name, f), float(np.max(np.abs(np.ravel(g(0.25)) - np.ravel(g(1.0))))), 0.0, "eq", atol=1e-14))
                 iarr = np.array([0, 1, 2, 3])
                 ikeep = iarr.copy()
@@ -203,6 +209,14 @@ def shape_relations(rng, tier):
                 except Exception:
                     ok = False
                 ev.append({"e": "rel", "group": "C15:callers-array-untouched", "name": "%s %s (integer array)" % (name, f), "c": "eq" if ok else "lt", "want": "eq"})
+        # through the ShapeFactor front end: an aspect-ratio function that peaks inside the radius grid, evaluated on the grid and point by point
+        Rg = np.linspace(0.5e-9, 7.5e-9, 15)
+        for name in ("needle", "plate", "cubic"):
+            sfp = ShapeFactor(name, lambda R: 4.0 - np.abs(np.asarray(R) - 4e-9) / 1e-9)
+            for f in ("eqRadiusFactor", "kineticFactor", "thermoFactor", "normalRadii"):
+                whole = np.asarray(getattr(sfp, f)(Rg), dtype=float)
+                worst = max(float(np.max(np.abs(np.ravel(whole[i]) - np.ravel(getattr(sfp, f)(float(r)))))) for i, r in enumerate(Rg))
+                ev.append(rel("C15:scalar=array", "ShapeFactor(%s, peaked aspect ratio) %s" % (name, f), worst, 0.0, "eq", atol=1e-14))
         # critical-radius search with real factor functions: R = Rs * thermoFactor(ar(R)) to the tolerance, whenever bracketed
         for name in ("needle", "plate", "cubic"):
             for k in range(4 if tier == "quick" else 30):
